@@ -392,8 +392,24 @@ func (s *fsm13) handleReceivedFlight( //nolint:cyclop
 	if !received.HasHandshake && len(received.ACKs) != 0 {
 		return s.transitionAfterACK(ackResult, false), nil
 	}
-	if received.HasHandshake && received.IsRetransmit && s.currentFlight.IsLastSendFlight() {
-		return s.handlePreviousFlightRetransmit(ctx, conn, received.RecordsToACK, ackResult)
+	if received.HasHandshake && s.currentFlight.IsLastSendFlight() {
+		if received.IsRetransmit {
+			return s.handlePreviousFlightRetransmit(ctx, conn, received.RecordsToACK, ackResult)
+		}
+
+		// A new handshake message while only the acknowledgement of our final
+		// flight is outstanding is a post-handshake message. The peer sends
+		// those only after it has processed that flight, so it acknowledges
+		// the flight implicitly (its explicit ACK was lost).
+		// https://datatracker.ietf.org/doc/html/rfc9147#section-7.1
+		s.retransmit = false
+		s.flightACK.reset()
+		s.postHandshake.initialize()
+		if err := s.postHandshake.handlePostHandshakeReceive(ctx, conn, received); err != nil {
+			return receivedFlightTransition{}, err
+		}
+
+		return receivedFlightTransition{state: StateFinished}, nil
 	}
 
 	nextFlight, err := s.parseReceivedFlight(ctx, conn, s.currentFlight)
